@@ -237,7 +237,12 @@ class LP:
 
 
 def nm(s):
-    return "~" if s is None else s
+    """a name as a script token; empty names and names with white space (or a leading '%' / '~') are percent-encoded"""
+    if s is None:
+        return "~"
+    if s == "" or s[0] in "%~" or any(ch.isspace() for ch in s):
+        return "%" + "".join(ch if (ch.isalnum() or ch in "_.-") else "%%%02x" % ord(ch) for ch in s)
+    return s
 
 
 def ents_s(ents):
